@@ -133,3 +133,23 @@ check('C11', 'E1', 'fault_enumeration',
       'engine.io internals excluded (dependency); depth-bounded (no '
       'closure); 2 transports, the second with a reduced alphabet.',
       'DESIGN.md 6/C11')
+
+check('C12', 'E4', 'fault_enumeration',
+      'bounded-exhaustive hostile-frame enumeration x every insertion '
+      'position of a bystander script, differential oracle',
+      'About 4000 offender text frames (every truncation, deletion, '
+      'duplication, misplaced syntax character and unicode digit of 13 valid '
+      'frame shapes; digit runs of 1..101; deep nesting; wrong payload '
+      'types; placeholder abuse; unknown types and namespaces; ALL strings '
+      'up to length 3/4 over 12 syntax characters), stray binary frames, and '
+      '~140 msgpack buffers (wrong-typed/missing fields, truncated, '
+      'length-lying) are inserted - singly and as contiguous pairs/triples '
+      'of 19 representatives - before the steps of a 10-step script run by '
+      'two bystander clients; bystander frames, handler log, callbacks, '
+      'rooms, sessions and outstanding callbacks are compared step by step '
+      'with the offender-free run; frames the implementation or the '
+      'reference codec cannot decode must cause no handler invocation and no '
+      'output; the object graph may grow only with bytes received.',
+      'engine.io exception containment trusted; offender connected to "/" '
+      'only; its own connection may become unusable.',
+      'DESIGN.md 6/C12')
